@@ -76,9 +76,9 @@ PRIM = ("Sphere", "Capsule", "Box", "Ellipsoid", "Cylinder")
 
 
 def alt_queries(c, twin, probe, probe2, L):
-    """the other distance / collision algorithms on (collider, probe) in both argument orders, against the fresh twin.  Per
-    function the collider is asked first (right after the previous observation asked it last), then the twin, then the collider
-    again, so that a per-function 'last pair' memo would be hit.  Differences in ticks of 1e-3*L/8 (tolerance of C09 / C08)."""
+    """the other distance / collision algorithms on (collider, probe) in both argument orders, against the fresh twin.  Every
+    function is asked (collider, box probe) first and again last, so that across a pose update the first call of an observation
+    repeats the last call of the previous one with the very same objects (a per-function 'last pair' memo would be hit).  Differences in ticks of 1e-3*L/8 (tolerance of C09 / C08)."""
     from distance3d import gjk, mpr
     prim = lambda x: type(x).__name__ in PRIM
     fns = [("orig", lambda a, b: float(gjk.gjk_distance_original(a, b)[0]), lambda a, b: True),
@@ -100,7 +100,6 @@ def alt_queries(c, twin, probe, probe2, L):
                     except Exception as e:            # an algorithm that does not accept the pair must refuse both alike
                         return None, type(e).__name__
                 (v1, e1), (v2, e2) = call(c), call(twin)
-                call(c)
                 if e1 or e2:
                     if e1 != e2:
                         worst = max(worst, 100)
@@ -111,6 +110,13 @@ def alt_queries(c, twin, probe, probe2, L):
                         worst = max(worst, 100)
                 else:
                     worst = max(worst, ticks(abs(v1 - v2), 1e-3 * L / 8))
+    for name, f, ok in fns:
+        # the last call of every function is the first call of the next observation: (collider, box probe)
+        if ok(c, probe2):
+            try:
+                f(c, probe2)
+            except Exception:
+                pass
     return worst
 
 
